@@ -1,7 +1,7 @@
 /-
 C14 for the gcno/gcda reader: the layers put together (`computeBytes` = `Gcno::compute` on bytes).
 -/
-import GrcovModel.Lemmas.GcnoSafeFinal
+import GrcovModel.Lemmas.GcnoSafeJohnson
 import GrcovModel.Lemmas.GcnoSafeTrunc
 namespace Grcov.Gcno
 open Outcome
@@ -46,12 +46,12 @@ theorem readAndStop_sat (gcno : List Nat) (gcdas : List (List Nat)) :
   apply Sat.bind
   exact (foldl_addGcdaBytes_sat hg _ gcdas).mono fun st _ => stop_sat hg st
 
-/-- `Gcno::compute` on any bytes: the crash sites that are not excluded are the overflow (known
-finding) and `underflow` of the cycle search -/
+/-- **`Gcno::compute` on any bytes**: a value, an error, or the overflow crash (known finding);
+never another crash, never out of fuel -/
 theorem computeBytes_sat (gcno : List Nat) (gcdas : List (List Nat)) (branch : Bool) :
-    Sat CycSites True (computeBytes gcno gcdas branch) fun _ => True := by
+    Sat OvOnly False (computeBytes gcno gcdas branch) fun _ => True := by
   rw [computeBytes_eq]
   apply Sat.bind
-  exact (readAndStop_sat gcno gcdas).toCyc.mono fun fs hfs => finalize_sat branch hfs
+  exact (readAndStop_sat gcno gcdas).mono fun fs hfs => finalize_ov branch hfs
 
 end Grcov.Gcno
